@@ -11,6 +11,7 @@ import (
 	"os"
 	"runtime"
 	"runtime/debug"
+	"sort"
 	"strconv"
 	"strings"
 	"sync"
@@ -108,7 +109,7 @@ func v14Build(r *verifrt.R, c *verifrt.Case, mode, flavor string) *v14Session {
 	for _, n := range cf.Waves {
 		nEx += n
 	}
-	perEx := r.N(600, 2400) / nEx
+	perEx := r.N(1500, 800) / nEx // the thorough tier runs under the race detector
 	if perEx < 12 {
 		perEx = 12
 	}
@@ -221,8 +222,19 @@ func (s *v14Session) evaluate() {
 				continue
 			}
 		}
-		if g.Err != nil && root != "" {
-			r.Event("exchanges_lost_to_"+root, 1)
+		if root != "" {
+			sn := seen[i]
+			if g.Err != nil || g.ReadErr != "" || sn == nil || !sn.Returned || sn.ReadErr != "" || sn.WriteErr != "" {
+				r.Event("exchanges_lost_to_"+root, 1)
+				continue
+			}
+		}
+		if s.realtime && g.Err != nil && w.side[1].acks == 0 && w.goAway[1] == 0 {
+			// In real time the server's 2 s first-SETTINGS timer (a constant) can fire on a
+			// loaded machine before its reader got through the client's preface; nothing
+			// about the exchange can be concluded then. (In the bubble that timer only fires
+			// when the connection is genuinely stalled.)
+			r.Event("realtime_exchanges_lost_before_server_settings_ack", 1)
 			continue
 		}
 		if g.Err != nil {
@@ -385,8 +397,17 @@ func (s *v14Session) evaluate() {
 		s.account(e, st, g, sn)
 	}
 	if s.stuck != "" {
+		var sts []string
+		for _, st := range w.streams {
+			sts = append(sts, v14StreamStr(st))
+		}
+		sort.Strings(sts)
+		h := w.history()
+		if len(h) > 1500 {
+			h = "…" + h[len(h)-1500:]
+		}
 		s.viol(map[bool]string{true: "exchange-stuck-realtime", false: "exchange-stuck"}[s.realtime],
-			"no byte moved and no handler or client made a step although exchanges were still running (%s)\nsession: %+v\nlast frames:%s", s.stuck, *cf, w.history())
+			"no byte moved and no handler or client made a step although exchanges were still running (%s)\nsession: %+v\nwire streams: %s\nlast frames:%s\ngoroutines: %s", s.stuck, *cf, strings.Join(sts, " | "), h, s.stuckStacks)
 	}
 	for _, p := range s.panics {
 		s.viol("serve-loop-panic:"+vcliPanicSig(p), "the server's serve loop panicked: %s\nsession: %+v", p, *cf)
@@ -574,6 +595,9 @@ func v14RunCase(r *verifrt.R, c *verifrt.Case, mode, flavor string) {
 	if inner != "" {
 		c.Violation("harness-panic", "panic while driving the session: %s", inner)
 	}
+	if outer != "" && s.stuck == "" && s.leftover != "" {
+		outer += "\ngoroutines of the bubble after teardown:\n" + s.leftover
+	}
 	if outer != "" && s.stuck == "" {
 		sig := outer
 		if len(sig) > 50 {
@@ -684,14 +708,14 @@ func TestVerif_C14(t *testing.T) {
 	}
 	// a small slice with the package's serve-goroutine assertion enabled
 	vsrvGoroutineTracking(true)
-	r.CasesParallel("bubble-gotrack", r.N(8, 100), 0, run("bubble", "general"))
+	r.CasesParallel("bubble-gotrack", r.N(10, 10), 0, run("bubble", "general"))
 	vsrvGoroutineTracking(false)
-	r.CasesParallel("bubble", r.N(150, 5000), 0, run("bubble", "general"))
-	r.CasesParallel("bubble-tiny-window", r.N(40, 1200), 0, run("bubble", "tiny-window"))
-	r.CasesParallel("bubble-near-limit", r.N(40, 1200), 0, run("bubble", "near-limit"))
-	r.CasesParallel("bubble-early", r.N(40, 1200), 0, run("bubble", "early"))
-	r.CasesParallel("realtime", r.N(80, 2500), runtime.GOMAXPROCS(0), run("realtime", "general"))
-	r.CasesParallel("realtime-tiny-window", r.N(20, 600), runtime.GOMAXPROCS(0), run("realtime", "tiny-window"))
+	r.CasesParallel("bubble", r.N(300, 200), 0, run("bubble", "general"))
+	r.CasesParallel("bubble-tiny-window", r.N(60, 40), 0, run("bubble", "tiny-window"))
+	r.CasesParallel("bubble-near-limit", r.N(60, 40), 0, run("bubble", "near-limit"))
+	r.CasesParallel("bubble-early", r.N(60, 40), 0, run("bubble", "early"))
+	r.CasesParallel("realtime", r.N(160, 150), runtime.GOMAXPROCS(0), run("realtime", "general"))
+	r.CasesParallel("realtime-tiny-window", r.N(40, 30), runtime.GOMAXPROCS(0), run("realtime", "tiny-window"))
 
 	r.Require("exchanges_compared_equal", 500)
 	r.Require("exchanges_with_continuation_c2s", 10)
